@@ -1,5 +1,5 @@
 // auto-generated: "lalrpop 0.23.1"
-// sha3: 3bdc8e1b170f9f434a3d0c0cf5ed6d0e421125e7fff9dcc6ee67256887c62706
+// sha3: a7d27cb5749e3b01466abd3f1216ca23ee091800b01660cdf103aff035ab45d7
 use crate::rt::*;
 #[allow(unused_extern_crates)]
 extern crate lalrpop_util as __lalrpop_util;
@@ -578,48 +578,44 @@ fn __action1<
     (_, l, _): (i64, i64, i64),
     (_, c0, _): (i64, Tok, i64),
     (_, c1, _): (i64, Tok, i64),
-    (_, pL2, _): (i64, i64, i64),
     (_, c2, _): (i64, Tree, i64),
     (_, c3, _): (i64, Tree, i64),
     (_, r, _): (i64, i64, i64),
 ) -> Tree
 {
-    { probe("S#0", 2, 'L', pL2); node("S#0", l, r, vec![Tree::from(c0), Tree::from(c1), Tree::from(c2), Tree::from(c3)]) }
+    node("S#0", l, r, vec![Tree::from(c0), Tree::from(c1), Tree::from(c2), Tree::from(c3)])
 }
 
 #[allow(clippy::too_many_arguments, clippy::needless_lifetimes, clippy::just_underscores_and_digits, clippy::extra_unused_type_parameters)]
 fn __action2<
 >(
     (_, l, _): (i64, i64, i64),
-    (_, pL0, _): (i64, i64, i64),
     (_, r, _): (i64, i64, i64),
 ) -> Tree
 {
-    { probe("Init#0", 0, 'L', pL0); node("Init#0", l, r, vec![]) }
+    node("Init#0", l, r, vec![])
 }
 
 #[allow(clippy::too_many_arguments, clippy::needless_lifetimes, clippy::just_underscores_and_digits, clippy::extra_unused_type_parameters)]
 fn __action3<
 >(
     (_, l, _): (i64, i64, i64),
-    (_, pR0, _): (i64, i64, i64),
     (_, c0, _): (i64, Tok, i64),
     (_, c1, _): (i64, Tok, i64),
     (_, r, _): (i64, i64, i64),
 ) -> Tree
 {
-    { probe("Init#1", 0, 'R', pR0); node("Init#1", l, r, vec![Tree::from(c0), Tree::from(c1)]) }
+    node("Init#1", l, r, vec![Tree::from(c0), Tree::from(c1)])
 }
 
 #[allow(clippy::too_many_arguments, clippy::needless_lifetimes, clippy::just_underscores_and_digits, clippy::extra_unused_type_parameters)]
 fn __action4<
 >(
     (_, l, _): (i64, i64, i64),
-    (_, pR0, _): (i64, i64, i64),
     (_, r, _): (i64, i64, i64),
 ) -> Tree
 {
-    { probe("Semi#0", 0, 'R', pR0); node("Semi#0", l, r, vec![]) }
+    node("Semi#0", l, r, vec![])
 }
 
 #[allow(clippy::too_many_arguments, clippy::needless_lifetimes, clippy::just_underscores_and_digits, clippy::extra_unused_type_parameters)]
@@ -662,21 +658,13 @@ fn __action8<
 {
     let __start0 = __0.0.clone();
     let __end0 = __0.0.clone();
-    let __start1 = __0.0.clone();
-    let __end1 = __0.0.clone();
     let __temp0 = __action7(
         &__start0,
         &__end0,
     );
     let __temp0 = (__start0, __temp0, __end0);
-    let __temp1 = __action7(
-        &__start1,
-        &__end1,
-    );
-    let __temp1 = (__start1, __temp1, __end1);
     __action2(
         __temp0,
-        __temp1,
         __0,
     )
 }
@@ -685,10 +673,9 @@ fn __action8<
     clippy::just_underscores_and_digits, clippy::clone_on_copy, clippy::unit_arg)]
 fn __action9<
 >(
-    __0: (i64, i64, i64),
+    __0: (i64, Tok, i64),
     __1: (i64, Tok, i64),
-    __2: (i64, Tok, i64),
-    __3: (i64, i64, i64),
+    __2: (i64, i64, i64),
 ) -> Tree
 {
     let __start0 = __0.0.clone();
@@ -703,7 +690,6 @@ fn __action9<
         __0,
         __1,
         __2,
-        __3,
     )
 }
 
@@ -720,23 +706,15 @@ fn __action10<
 {
     let __start0 = __0.0.clone();
     let __end0 = __0.0.clone();
-    let __start1 = __1.2.clone();
-    let __end1 = __2.0.clone();
     let __temp0 = __action7(
         &__start0,
         &__end0,
     );
     let __temp0 = (__start0, __temp0, __end0);
-    let __temp1 = __action7(
-        &__start1,
-        &__end1,
-    );
-    let __temp1 = (__start1, __temp1, __end1);
     __action1(
         __temp0,
         __0,
         __1,
-        __temp1,
         __2,
         __3,
         __4,
@@ -748,7 +726,6 @@ fn __action10<
 fn __action11<
 >(
     __0: (i64, i64, i64),
-    __1: (i64, i64, i64),
 ) -> Tree
 {
     let __start0 = __0.0.clone();
@@ -761,7 +738,6 @@ fn __action11<
     __action4(
         __temp0,
         __0,
-        __1,
     )
 }
 
@@ -815,25 +791,17 @@ fn __action14<
     __1: (i64, Tok, i64),
 ) -> Tree
 {
-    let __start0 = __0.0.clone();
-    let __end0 = __0.0.clone();
-    let __start1 = __1.2.clone();
-    let __end1 = __1.2.clone();
+    let __start0 = __1.2.clone();
+    let __end0 = __1.2.clone();
     let __temp0 = __action6(
         &__start0,
         &__end0,
     );
     let __temp0 = (__start0, __temp0, __end0);
-    let __temp1 = __action6(
-        &__start1,
-        &__end1,
-    );
-    let __temp1 = (__start1, __temp1, __end1);
     __action9(
-        __temp0,
         __0,
         __1,
-        __temp1,
+        __temp0,
     )
 }
 
@@ -873,21 +841,13 @@ fn __action16<
 {
     let __start0 = __lookbehind.clone();
     let __end0 = __lookahead.clone();
-    let __start1 = __lookbehind.clone();
-    let __end1 = __lookahead.clone();
     let __temp0 = __action6(
         &__start0,
         &__end0,
     );
     let __temp0 = (__start0, __temp0, __end0);
-    let __temp1 = __action6(
-        &__start1,
-        &__end1,
-    );
-    let __temp1 = (__start1, __temp1, __end1);
     __action11(
         __temp0,
-        __temp1,
     )
 }
 
